@@ -165,3 +165,6 @@ impl RemoteTracker {
             .for_each(|(_, uplinks)| uplinks.complete(reason));
     }
 }
+
+#[cfg(swimos_verif)]
+pub use self::uplink::Uplinks as VerifUplinks;
